@@ -190,6 +190,36 @@ mod proofs {
   }
 
   #[kani::proof]
+  #[kani::unwind(34)]
+  fn c35_inscription_entry_parents_order() {
+    // two parents, everything else fixed: the stored list reads back in the same order
+    let a: u32 = kani::any();
+    let b: u32 = kani::any();
+    let e = InscriptionEntry {
+      charms: 0,
+      fee: 0,
+      height: 0,
+      hidden: false,
+      id: InscriptionId { txid: Txid::from_byte_array([7; 32]), index: 1 },
+      inscription_number: 0,
+      parents: vec![a, b],
+      sat: None,
+      sequence_number: 2,
+      timestamp: 0,
+    };
+    kani::cover!(a > b);
+    kani::cover!(a == b);
+    let back = InscriptionEntry::load(e.store());
+    let n = back.parents.len();
+    let p0 = if n > 0 { back.parents[0] } else { 0 };
+    let p1 = if n > 1 { back.parents[1] } else { 0 };
+    std::mem::forget(back);
+    assert!(n == 2);
+    assert!(p0 == a);
+    assert!(p1 == b);
+  }
+
+  #[kani::proof]
   #[kani::unwind(82)]
   fn c35_header_roundtrip() {
     let h = Header {
